@@ -209,8 +209,19 @@ func randSession(r *rand.Rand, d string, hostile int) (units [][]byte, class str
 			units[k] = u
 			class = "bad-checksum"
 		}
-	case 7: // 0x1212 for a file that was never announced (answer not judged beyond being a reply)
-		class = "plain"
+	case 8: // 0x1212 for a file name that was never announced, right after a 0x1212 that reported gaps
+		for k := range units {
+			// the first 0x1212 in the script (frames are 7e-delimited; id at bytes 1..2)
+			if len(units[k]) > 3 && units[k][0] == 0x7e && units[k][1] == 0x12 && units[k][2] == 0x12 {
+				stray := ctl(0x1212, body1211([]byte("never_announced"), 1, 9))
+				units = append(units[:k+1:k+1], append([][]byte{stray}, units[k+1:]...)...)
+				break
+			}
+		}
+		class = "1212-for-unannounced-file"
+	case 7: // the session starts with 0x1211 / 0x1212: no 0x1210 came first
+		units = append([][]byte{ctl([]int{0x1211, 0x1212}[r.Intn(2)], body1211(files[0].name, 0, len(files[0].content)))}, units...)
+		class = "control-before-1210"
 	}
 	return units, class
 }
@@ -227,7 +238,7 @@ func init() {
 			d := aDialects[r.Intn(5)]
 			hostile := 0
 			if allowHostile && s%3 != 0 {
-				hostile = 1 + r.Intn(6)
+				hostile = 1 + r.Intn(8)
 			}
 			us, class := randSession(r, d, hostile)
 			units := make([]AUnit, len(us))
